@@ -137,7 +137,13 @@ def compare_input(ctx, key, sub, inp, d, sp, check_elev=True, tol=1e-6, only=Non
         if got is None or (name == "ens" and np.asarray(got).shape[-1] == 0):
             ctx.fail(key + "/" + name, sub, "%s is missing from the reader's result" % name)
             return False
-        g = sel(got)
+        try:
+            g = sel(got)
+        except IndexError:
+            # an array whose shape does not match the dimensions the same reader reports
+            ctx.fail(key + "/" + name + "/shape", sub, "%s has shape %r, the file's dimensions are %d times x %d lead times x %d locations"
+                     % (name, np.asarray(got).shape, len(inp.times), len(inp.leadtimes), len(inp.locations)))
+            return False
         e = mat.arr(d[name])
         if dim is not None:
             have = [round(float(x), 6) for x in getattr(inp, dim)]
@@ -145,7 +151,11 @@ def compare_input(ctx, key, sub, inp, d, sp, check_elev=True, tol=1e-6, only=Non
             if sorted(have) != sorted(want):
                 ctx.fail(key + "/" + dim, sub, "%s %r, file has %r" % (dim, have, want))
                 return False
-            g = g[..., [have.index(x) for x in want]]
+            try:
+                g = g[..., [have.index(x) for x in want]]
+            except IndexError:
+                ctx.fail(key + "/" + name + "/shape", sub, "%s has shape %r for %d %s" % (name, np.asarray(got).shape, len(have), dim))
+                return False
         ctx.evals += 1
         if g.shape != e.shape or not np.array_equal(np.isnan(g), np.isnan(e)):
             ctx.fail(key + "/" + name + "/missing-mask", sub, "%s: missing mask differs from the file" % name)
@@ -157,7 +167,11 @@ def compare_input(ctx, key, sub, inp, d, sp, check_elev=True, tol=1e-6, only=Non
         if nm not in list(inp.other_fields):
             ctx.fail(key + "/other", sub, "other field %r not found (have %r)" % (nm, list(inp.other_fields)))
             return False
-        g = sel(inp.other_score(nm))
+        try:
+            g = sel(inp.other_score(nm))
+        except IndexError:
+            ctx.fail(key + "/other/shape", sub, "other field %r has shape %r" % (nm, np.asarray(inp.other_score(nm)).shape))
+            return False
         e = mat.arr(d["other"][nm])
         if not np.array_equal(np.isnan(g), np.isnan(e)) or not np.allclose(np.nan_to_num(g), np.nan_to_num(e), rtol=tol, atol=tol):
             ctx.fail(key + "/other", sub, "other field %r differs" % nm)
